@@ -132,7 +132,7 @@ func (p proxySpec) node() *core.Node {
 		"CLUSTER_ID":    "Kubernetes",
 		"SERVICE_ACCOUNT": "sa-" + p.NS,
 	})
-	return &core.Node{Id: p.ID, Metadata: meta}
+	return &core.Node{Id: p.ID, Metadata: meta, Locality: &core.Locality{Region: "region1", Zone: "zone1"}}
 }
 
 // ---- the client
@@ -162,6 +162,15 @@ type client struct {
 	removed map[string][]string // delta: names explicitly removed per type (whole session)
 	// nackNext, when set, makes the client reject the next response of that type
 	nackNext string
+	// reconnect variants (C05): edsFirst = on a new stream the retained EDS subscription is re-sent
+	// before the CDS request and every cluster of the first CDS response re-warms (Envoy re-requests
+	// EDS after a CDS update and keeps the clusters warming until answered, envoy#13009);
+	// explicitWildcard = a delta client re-subscribes wildcard types as ["*", <one retained name>]
+	// (a wildcard and a named watch coexisting), retained names only in initial_resource_versions
+	edsFirst         bool
+	explicitWildcard bool
+	rewarmOnCDS      bool
+	deferred         []string // requests held back until the first EDS response of the stream was ACKed
 }
 
 func newClient(spec proxySpec, delta bool) *client {
@@ -208,14 +217,33 @@ func (c *client) connect(srv *simServer, retained bool, cutAfter int) {
 	order := []string{v3.ClusterType, v3.ListenerType}
 	if retained {
 		order = []string{v3.ClusterType, v3.EndpointType, v3.ListenerType, v3.RouteType}
+		if c.edsFirst && !c.delta {
+			order = []string{v3.EndpointType, v3.ClusterType, v3.ListenerType, v3.RouteType}
+			c.rewarmOnCDS = true
+		}
 	}
-	for _, t := range order {
+	for i, t := range order {
 		ts := c.ts[t]
 		if retained && !ts.requested {
 			continue
 		}
 		c.request(t, first, retained)
 		first = false
+		if c.rewarmOnCDS && i == 0 && t == v3.EndpointType && len(ts.subs) > 0 {
+			// Envoy's (delayed) CDS request follows the EDS exchange
+			c.deferred = append([]string(nil), order[1:]...)
+			break
+		}
+	}
+}
+
+func (c *client) sendDeferred() {
+	d := c.deferred
+	c.deferred = nil
+	for _, t := range d {
+		if c.ts[t].requested && c.alive() {
+			c.request(t, false, true)
+		}
 	}
 }
 
@@ -255,6 +283,9 @@ func (c *client) request(t string, withNode, reconnect bool) {
 			req.InitialResourceVersions = map[string]string{}
 			for n := range ts.held {
 				req.InitialResourceVersions[n] = "retained"
+			}
+			if c.explicitWildcard && isWildcard(t) && len(ts.held) > 0 {
+				req.ResourceNamesSubscribe = []string{"*", sortedKeys(ts.held)[0]}
 			}
 		}
 		for _, n := range names {
@@ -354,6 +385,9 @@ func (c *client) handleSotw(r *discovery.DiscoveryResponse) {
 	}
 	c.ss.toServer <- ack
 	c.followUp(t)
+	if t == v3.EndpointType && len(c.deferred) > 0 {
+		c.sendDeferred()
+	}
 }
 
 func (c *client) handleDelta(r *discovery.DeltaDiscoveryResponse) {
@@ -407,7 +441,11 @@ func (c *client) followUp(t string) {
 	}
 	sort.Strings(added)
 	sort.Strings(removed)
-	if len(added) == 0 && len(removed) == 0 && ds.requested {
+	rewarm := t == v3.ClusterType && c.rewarmOnCDS
+	if rewarm {
+		c.rewarmOnCDS = false
+	}
+	if len(added) == 0 && len(removed) == 0 && ds.requested && !rewarm {
 		return
 	}
 	if len(want) == 0 && !ds.requested {
@@ -430,6 +468,11 @@ func (c *client) followUp(t string) {
 	}
 	for _, n := range added {
 		ds.awaiting[n] = true
+	}
+	if rewarm {
+		for n := range want {
+			ds.awaiting[n] = true
+		}
 	}
 	c.log = append(c.log, fmt.Sprintf("-> %s names=%v", short(dep), sortedKeys(want)))
 	c.ss.toServer <- &discovery.DiscoveryRequest{TypeUrl: dep, ResourceNames: sortedKeys(want), VersionInfo: ds.version, ResponseNonce: ds.nonce}
